@@ -14,3 +14,14 @@ open Mud.C07
 #print axioms full_run_reversible
 #print axioms Mud.StepThm.shStep_common
 #print axioms Mud.StepThm.shStep_event
+#print axioms harmonicFlow_solves
+#print axioms verlet_harmonic_step
+#print axioms verlet_harmonic_local_error
+#print axioms shadowS_iterate
+#print axioms vmap_iterate_bounded
+#print axioms vmap_local
+#print axioms vmap_global
+#print axioms modeC_verletRun
+#print axioms modeC_flow
+#print axioms verlet_harmonic_global_error
+#print axioms verlet_harmonic_global_error_xv
